@@ -16,7 +16,12 @@ It understands exactly the table-shaped grammar those functions are written in:
 Anything else is a TranslatorError naming the line, and the check reports it by name
 (DESIGN 2.3/2.6).  Output: coq/Model/BlasC13Gen.v and build/c13_sites.json (site -> file:line).
 
-usage: blas_dispatch_to_coq.py <include dir> <out .v> <out sites.json>
+It also regenerates the ladders of syrk.hpp (syrk), herk.hpp (the complex herk) and trsm.hpp into
+coq/Model/BlasC13L3Gen.v (main_l3): same statement grammar; expressions: stride(x) x.stride() stride(~x)
+x.rotated().stride() size(..) x.base() base_x underlying(..), `c ? 'L' : 'U'` on c_side / flip(c_side) ==
+filling::upper, static_cast<char>(a_side | swap(a_side) | +a_fill | -a_fill | a_diag), alpha | conj(alpha).
+
+usage: blas_dispatch_to_coq.py <include dir> <out .v> <out sites.json> [<out L3 .v> <out L3 sites.json>]
 """
 import json
 import os
@@ -87,7 +92,13 @@ class P:
 
     # ---- expressions ----
     def expr(self):
-        return self.p_or()
+        e = self.p_or()
+        if self.accept("?"):                      # c ? x : y   (uplo selection in syrk.hpp / herk.hpp)
+            a = self.expr()
+            self.expect(":")
+            b = self.expr()
+            return ("tern", e, a, b)
+        return e
 
     def p_or(self):
         e = self.p_and()
@@ -115,6 +126,12 @@ class P:
         if self.peek()[1] == "&" and self.peek(1)[0] == "id":
             self.next()
             return ("addr", self.next()[1])
+        if self.peek()[1] == "~":                 # ~a : the transposed view (trsm.hpp)
+            self.next()
+            return ("tilde", self.p_un())
+        if self.peek()[1] in ("-", "+") and self.peek(1)[0] == "id":   # -a_fill / +a_fill (trsm.hpp)
+            sign = self.next()[1]
+            return ("neg" if sign == "-" else "plus", self.p_un())
         return self.p_post()
 
     def p_post(self):
@@ -141,6 +158,17 @@ class P:
                     self.expect("{")
                     self.expect("}")
                 return ("isconj", ty)
+            if s == "static_cast" and self.peek()[1] == "<":
+                self.next()
+                self.next()
+                self.expect(">")
+                self.expect("(")
+                e = self.expr()
+                self.expect(")")
+                return ("cast", e)
+            if self.peek()[1] == "::" and self.peek(1)[0] == "id" and s != "std":     # filling::upper
+                self.next()
+                return ("scoped", s, self.next()[1])
             if s == "std" and self.peek()[1] == "::" and self.peek(1)[1] == "max":
                 # std::max<Size>(e, e)  (gemv.hpp since the leading-dimension fix)
                 self.next()
@@ -171,6 +199,9 @@ class P:
         elif kind == "chr":
             self.next()
             e = ("chr", s[1:-1])
+        elif kind == "str":
+            self.next()
+            e = ("str", s)
         else:
             self.err("unexpected token in expression")
         while self.peek()[1] == ".":
@@ -219,6 +250,15 @@ class P:
             while self.next()[1] != ";":
                 pass
             return ("return", line)
+        if s in ("herk", "syrk") and self.peek(1)[1] == "(":          # level 3: the core routine is called directly
+            routine = self.next()[1]
+            self.expect("(")
+            args = [self.expr()]
+            while self.accept(","):
+                args.append(self.expr())
+            self.expect(")")
+            self.expect(";")
+            return ("blas", routine, args, line)
         if s in ("CTXT", "ctxt") and self.peek(1)[1] == "->":
             self.next()
             self.next()
@@ -540,9 +580,252 @@ def main(include, out_v, out_sites):
     return sites
 
 
+# --------------------------------------------------------------------------------------------
+# level 3 besides gemm: syrk.hpp, herk.hpp, trsm.hpp (their ladders fit the same statement grammar; expressions differ)
+# --------------------------------------------------------------------------------------------
+class Emit3:
+    """views: a, c (syrk/herk: `cc` and `c`), b (trsm).  stride(x) / x.stride() -> s0, stride(~x) / x.rotated().stride() -> s1,
+    size(x) / x.size() -> rows, size(~x) / x.rotated().size() -> cols, x.base() / base_x / underlying(..) -> mbase."""
+    VARS = {"a": "a", "b": "b", "c": "c", "cc": "c"}
+    TYPES = {"A2D": "a", "B2D": "b", "C2D": "c"}
+
+    def __init__(self, fname, routine, base):
+        self.fname, self.routine, self.base = fname, routine, base
+        self.block = 0
+        self.count = 0
+        self.sites = {}
+
+    def err(self, line, msg):
+        raise TranslatorError("%s:%d: %s" % (self.fname, line, msg))
+
+    def view(self, x, line):
+        """-> (coq var, transposed?)"""
+        if x[0] == "id" and x[1] in self.VARS:
+            return self.VARS[x[1]], False
+        if x[0] == "tilde":
+            v, t = self.view(x[1], line)
+            return v, not t
+        if x[0] == "meth" and x[2] == "rotated":
+            v, t = self.view(x[1], line)
+            return v, not t
+        self.err(line, "not a view expression: %r" % (x,))
+
+    def e(self, x, line):
+        k = x[0]
+        if k == "num":
+            return x[1]
+        if k == "id" and x[1] in ("base_a", "base_c"):
+            return "mbase " + x[1][-1]
+        if k == "call" and x[1] in ("stride", "size") and len(x[2]) == 1:
+            v, t = self.view(x[2][0], line)
+            return ({("stride", False): "s0 ", ("stride", True): "s1 ", ("size", False): "rows ", ("size", True): "cols "}[(x[1], t)]) + v
+        if k == "meth" and x[2] in ("stride", "size"):
+            v, t = self.view(x[1], line)
+            return ({("stride", False): "s0 ", ("stride", True): "s1 ", ("size", False): "rows ", ("size", True): "cols "}[(x[2], t)]) + v
+        if k == "meth" and x[2] == "base":
+            v, t = self.view(x[1], line)
+            return "mbase " + v
+        if k == "call" and x[1] == "underlying" and len(x[2]) == 1:
+            return self.e(x[2][0], line)
+        if k == "call" and x[1] == "bbase" and len(x[2]) == 1:      # trsm.hpp:107 (ill-formed in C++: no such function); read as base
+            v, t = self.view(x[2][0], line)
+            return "mbase " + v
+        self.err(line, "expression outside the level-3 dispatch grammar: %r" % (x,))
+
+    def ch(self, x, line):
+        """character argument -> Coq Z term"""
+        k = x[0]
+        if k == "chr":
+            if x[1] not in "NTCLUR":
+                self.err(line, "unexpected character literal %r" % x[1])
+            return "ch_" + x[1]
+        if k == "tern" and x[2][0] == "chr" and x[3][0] == "chr":
+            c = x[1]
+            if c[0] == "eq" and c[2] == ("scoped", "filling", "upper"):
+                if c[1] == ("id", "c_side"):
+                    cond = "upper"
+                elif c[1] == ("call", "flip", [("id", "c_side")]):
+                    cond = "negb upper"
+                else:
+                    self.err(line, "unknown fill expression %r" % (c[1],))
+                return "(if %s then %s else %s)" % (cond, self.ch(x[2], line), self.ch(x[3], line))
+            self.err(line, "unknown uplo selection %r" % (c,))
+        if k == "cast":
+            y = x[1]
+            if y == ("id", "a_side"):
+                return "(side_char left)"
+            if y == ("call", "swap", [("id", "a_side")]):
+                return "(side_char (negb left))"
+            if y == ("plus", ("id", "a_fill")):
+                return "(fill_char lower)"
+            if y == ("neg", ("id", "a_fill")):
+                return "(fill_char (negb lower))"
+            if y == ("id", "a_diag"):
+                return "(diag_char unit)"
+            self.err(line, "unknown static_cast<char> argument %r" % (y,))
+        self.err(line, "not a character argument: %r" % (x,))
+
+    def c(self, x, line):
+        k = x[0]
+        if k == "and":
+            return "(%s && %s)" % (self.c(x[1], line), self.c(x[2], line))
+        if k == "or":
+            return "(%s || %s)" % (self.c(x[1], line), self.c(x[2], line))
+        if k == "not":
+            return "(negb %s)" % self.c(x[1], line)
+        if k == "eq":
+            return "(%s =? %s)" % (self.e(x[1], line), self.e(x[2], line))
+        if k == "ne":
+            return "(negb (%s =? %s))" % (self.e(x[1], line), self.e(x[2], line))
+        if k == "isconj":
+            if x[1] not in self.TYPES:
+                self.err(line, "is_conjugated of unknown type %s" % x[1])
+            return "(mconj %s)" % self.TYPES[x[1]]
+        self.err(line, "condition outside the level-3 dispatch grammar: %r" % (x,))
+
+    def leaf(self, st):
+        _, routine, args, line = st
+        self.count += 1
+        site = self.base + 10 * self.block + self.count
+        self.sites[str(site)] = "%s:%d" % (self.fname, line)
+        if routine in ("syrk", "herk"):
+            if len(args) != 10 or args[4] != ("addr", "alpha") or args[7] != ("addr", "beta"):
+                self.err(line, "%s call is not (uplo, trans, n, k, &alpha, a, lda, &beta, c, ldc)" % routine)
+            z = [self.e(args[i], line) for i in (2, 3, 5, 6, 8, 9)]
+            return "L3Call (mk_rk_call %d %s %s %s)" % (site, self.ch(args[0], line), self.ch(args[1], line), " ".join("(%s)" % t for t in z))
+        if routine == "trsm":
+            if len(args) != 11:
+                self.err(line, "trsm call with %d arguments" % len(args))
+            al = args[6]
+            if al == ("id", "alpha"):
+                cj = "false"
+            elif al == ("call", "conj", [("id", "alpha")]):
+                cj = "true"
+            else:
+                self.err(line, "unknown scalar argument %r" % (al,))
+            z = [self.e(args[i], line) for i in (4, 5, 7, 8, 9, 10)]
+            return "L3Call (mk_trsm_call %d %s %s %s %s %s %s)" % (site, self.ch(args[0], line), self.ch(args[1], line), self.ch(args[2], line),
+                                                                  self.ch(args[3], line), " ".join("(%s)" % t for t in z), cj)
+        self.err(line, "call to %s in a level-3 ladder" % routine)
+
+    def stmt(self, st, ind, top=False):
+        k = st[0]
+        pad = "  " * ind
+        if k == "block":
+            inner = [s for s in st[1] if s[0] != "return"]
+            if len(inner) != 1:
+                self.err(st[2], "a dispatch leaf must be one statement")
+            return self.stmt(inner[0], ind)
+        if k == "blas":
+            return self.leaf(st)
+        if k == "assert":
+            c = st[1]
+            if c == ("num", "0") or (c[0] == "and" and c[1] == ("num", "0") and c[2][0] == "str"):
+                return "L3Abort"
+            self.err(st[2], "assertion inside the ladder is not assert(0)")
+        if k == "if":
+            _, c, th, el, line = st
+            is_block_sel = self.routine in ("herk", "trsm") and top
+            if is_block_sel:
+                self.count = 0
+            t1 = self.stmt(th, ind + 1)
+            if is_block_sel:
+                self.block += 1
+                self.count = 0
+            if el is None:
+                t2 = "L3Abort"                      # no else: the conditions before are exhaustive (trsm.hpp:105)
+            else:
+                t2 = self.stmt(el, ind + 1, top=(top and el[0] == "if"))
+            return "(if %s then\n%s  %s\n%selse\n%s  %s)" % (self.c(c, line), pad, t1, pad, pad, t2)
+        self.err(st[-1], "statement kind %s inside a level-3 ladder" % k)
+
+
+def ladder_statement(text, fname, func_re, start_re):
+    """parse ONE statement: the if-ladder that starts at start_re inside the function whose signature matches func_re"""
+    m = re.search(func_re, text)
+    if not m:
+        raise TranslatorError("%s: function not found: %s" % (fname, func_re))
+    m2 = re.compile(start_re).search(text, m.end())
+    if not m2:
+        raise TranslatorError("%s: dispatch ladder not found after %s" % (fname, func_re))
+    line0 = text.count("\n", 0, m2.start()) + 1
+    # up to the closing brace of the enclosing block
+    k, depth = m2.start(), 0
+    while k < len(text):
+        if text.startswith("//", k):
+            k = text.index("\n", k)
+            continue
+        ch = text[k]
+        if ch == "'" and k + 2 < len(text) and text[k + 2] == "'":
+            k += 3
+            continue
+        if ch == '"':
+            k = text.index('"', k + 1) + 1
+            continue
+        if ch == "{":
+            depth += 1
+        elif ch == "}":
+            depth -= 1
+            if depth < 0:
+                break
+        k += 1
+    body = re.sub(r"(?m)^[ \t]*#.*$", "", text[m2.start():k])      # drop the #define CTXT / #undef lines inside trsm
+    toks = lex(body, line0)
+    return P(toks, fname).stmt()
+
+
+L3_HEADER = """(* GENERATED by gen/blas_dispatch_to_coq.py from the source text of syrk.hpp / herk.hpp / trsm.hpp.  Do not edit.
+   Definitions only.  Site numbers: 600 + n (syrk), 700 + 10*block + n (herk: block 0 = a conjugated), 800 + 10*block + n (trsm:
+   blocks in the order of the `if constexpr` chain), n = ordinal of the call in its block. *)
+From Coq Require Import ZArith Bool.
+From BM Require Import Model.BlasC13 Model.BlasC13L3.
+Local Open Scope Z_scope.
+Local Open Scope bool_scope.
+
+Definition side_char (left : bool) : Z := if left then ch_L else ch_R.          (* static_cast<char>(side): side.hpp *)
+Definition fill_char (lower : bool) : Z := if lower then ch_U else ch_L.         (* static_cast<char>(+fill): filling.hpp:16-19 *)
+Definition diag_char (unit : bool) : Z := if unit then ch_U else ch_N.           (* static_cast<char>(diag): trsm.hpp:15-18 *)
+
+"""
+
+
+def main_l3(include, out_v, out_sites):
+    d = os.path.join(include, "boost", "multi", "adaptors", "blas")
+    sites = {}
+    defs = []
+    txt = open(os.path.join(d, "syrk.hpp")).read()
+    st = ladder_statement(txt, "syrk.hpp", r"auto\s+syrk\s*\(\s*filling\s+c_side\s*,\s*typename\s+A2D::element\s+alpha", r"if\s*\(\s*stride\(a\)\s*==\s*1\s*\)")
+    em = Emit3("syrk.hpp", "syrk", 600)
+    defs.append("Definition syrk_dispatch_gen (upper : bool) (a c : mat) : l3_outcome rk_call :=\n  %s.\n" % em.stmt(st, 1, top=True))
+    sites.update(em.sites)
+    txt = open(os.path.join(d, "herk.hpp")).read()
+    st = ladder_statement(txt, "herk.hpp", r"auto\s+herk\s*\(\s*filling\s+c_side\s*,\s*AA\s+alpha\s*,\s*A2D\s+const&\s*a\s*,\s*BB\s+beta\s*,\s*C2D&&\s*c\s*\)\s*->\s*C2D&&",
+                          r"if\s+constexpr\s*\(\s*is_conjugated<A2D>\{\}\s*\)")
+    em = Emit3("herk.hpp", "herk", 700)
+    defs.append("Definition herk_dispatch_gen (upper : bool) (a c : mat) : l3_outcome rk_call :=\n  %s.\n" % em.stmt(st, 1, top=True))
+    sites.update(em.sites)
+    txt = open(os.path.join(d, "trsm.hpp")).read()
+    st = ladder_statement(txt, "trsm.hpp", r"auto\s+trsm\s*\(\s*Context&&\s*ctxt\s*,\s*blas::side\s+a_side\s*,\s*blas::filling\s+a_fill\s*,\s*blas::diagonal\s+a_diag",
+                          r"if\s+constexpr\s*\(\s*!\s*is_conjugated<A2D>\{\}\s*&&\s*!\s*is_conjugated<B2D>\{\}\s*\)")
+    em = Emit3("trsm.hpp", "trsm", 800)
+    defs.append("Definition trsm_dispatch_gen (left lower unit : bool) (a b : mat) : l3_outcome trsm_call :=\n  %s.\n" % em.stmt(st, 1, top=True))
+    sites.update(em.sites)
+    text = L3_HEADER + "\n".join(defs)
+    old = open(out_v).read() if os.path.exists(out_v) else None
+    if old != text:
+        with open(out_v, "w") as f:
+            f.write(text)
+    os.makedirs(os.path.dirname(out_sites), exist_ok=True)
+    with open(out_sites, "w") as f:
+        json.dump(sites, f, indent=1, sort_keys=True)
+    return sites
+
+
 if __name__ == "__main__":
     try:
         main(sys.argv[1], sys.argv[2], sys.argv[3])
+        if len(sys.argv) > 5:
+            main_l3(sys.argv[1], sys.argv[4], sys.argv[5])
     except TranslatorError as ex:
         print("TRANSLATOR-ERROR: %s" % ex)
         sys.exit(3)
